@@ -1,0 +1,101 @@
+//go:build verif
+
+// Contracts for package sqlite (module github.com/fido-device-onboard/go-fdo/sqlite),
+// checked by /verif/govc (see /verif/DESIGN.md). Comment-only file.
+package sqlite
+
+// ---- token = session id || HMAC(secret, session id) (C18, C08) --------------------------
+//@ func sqlite.DB.sessionID
+//@   props C18 C08 C10(sweep)
+//@   sweep bounds,panic,make,nilmem
+//@   makelimit 1048576
+//@   modifies nothing
+//@   callassert New#1: @secret bytes(arg1) == bytes(secret)
+//@   callassert Write#1: @overid bytes(arg1) == bytes(id)
+//@   ensures @mac ? result1 ==> bytes(mac1) == digest(absorbed(hash)) && len(result0) == 16 && u(result0) == u(id)
+//@   ensures @nomac !result1 ==> len(result0) == 0
+
+//@ func sqlite.DB.loadOrStoreSecret
+//@   nopaths
+//@   modifies nothing
+
+// ---- accessors: no session, no state (C18, C08) ----------------------------------------------
+//@ func sqlite.DB.TO0SignNonce
+//@   props C18 C08 C10(sweep)
+//@   sweep bounds,panic,make,nilmem
+//@   ensures @session ? err == nil ==> ok
+//@ func sqlite.DB.TO1ProofNonce
+//@   props C18 C08 C10(sweep)
+//@   sweep bounds,panic,make,nilmem
+//@   ensures @session ? err == nil ==> ok
+//@ func sqlite.DB.GUID
+//@   props C18 C08 C10(sweep)
+//@   sweep bounds,panic,make,nilmem
+//@   ensures @session ? err == nil ==> ok
+//@ func sqlite.DB.ProveDeviceNonce
+//@   props C18 C08 C10(sweep)
+//@   sweep bounds,panic,make,nilmem
+//@   ensures @session ? err == nil ==> ok
+//@ func sqlite.DB.SetupDeviceNonce
+//@   props C18 C08 C10(sweep)
+//@   sweep bounds,panic,make,nilmem
+//@   ensures @session ? err == nil ==> ok
+//@ func sqlite.DB.ReplacementGUID
+//@   props C18 C08 C10(sweep)
+//@   sweep bounds,panic,make,nilmem
+//@   ensures @session ? err == nil ==> ok
+//@ func sqlite.DB.ReplacementHmac
+//@   props C18 C08 C10(sweep)
+//@   sweep bounds,panic,make,nilmem
+//@   ensures @session ? err == nil ==> ok
+//@ func sqlite.DB.SetTO0SignNonce
+//@   props C18 C08
+//@   sweep bounds,nilmem
+//@   ensures @session ? err == nil ==> ok
+//@ func sqlite.DB.SetGUID
+//@   props C18 C08
+//@   sweep bounds,nilmem
+//@   ensures @session ? err == nil ==> ok
+//@ func sqlite.DB.InvalidateToken
+//@   props C18 C08
+//@   sweep bounds,nilmem
+//@   ensures @session ? err == nil ==> ok
+
+// ---- expiry of rendezvous blobs (C18, C07) ----------------------------------------------------
+//@ func sqlite.DB.RVBlob
+//@   props C18 C07 C10(sweep)
+//@   sweep bounds,panic,make,nilmem
+//@   callassert Unmarshal#1: @notexpired TimeAfter(lastnow(True()), UnixTime(exp.Int64)) == False()
+//@   callassert Unmarshal#1: @stored exp.Valid && !isnil(blob)
+//@   ensures @both err == nil ==> result0 != nil && result1 != nil
+
+// ---- voucher replacement: add first, remove second, compensate (C18, C03) -----------
+//@ func sqlite.DB.ReplaceVoucher
+//@   props C18 C03 C10(sweep)
+//@   sweep bounds,panic,make,nilmem
+//@   callsites remove 2
+//@   callsites AddVoucher 1
+//@   callassert AddVoucher#1: @noentries len(ov.Entries) == 0 && u(arg2) == u(ov)
+//@   callassert remove#1: @afteradd added(ov) == True()
+
+//@ func sqlite.DB.AddVoucher
+//@   nopaths
+//@   modifies nothing
+//@   ghostset added(ov) := True()
+
+//@ func sqlite.remove
+//@   nopaths
+//@   modifies nothing
+//@ func sqlite.DB.debugCtx
+//@   nopaths
+//@   pure
+//@   ensures result != nil
+//@ func sqlite.debug
+//@   nopaths
+//@   pure
+//@ func sqlite.DB.query
+//@   nopaths
+//@   modifies into
+//@ func sqlite.DB.insert
+//@   nopaths
+//@   modifies nothing
